@@ -342,6 +342,17 @@ fn body(ctx: &mut Ctx) {
     let r = signed(&alpha::runs(&alpha::SIGMA3, k, l));
     pairs(ctx, "B2", &r, &r);
 
+    {
+        let lmax = tier.pick(6usize, 10usize);
+        let mut set: Vec<Vec<u64>> = Vec::new();
+        for l in 1..=lmax {
+            for salt in 0..3u64 {
+                set.push(alpha::lcg_digits(l, salt));
+            }
+        }
+        let dense_vals = signed(&set);
+        pairs(ctx, "B5", &dense_vals, &dense_vals);
+    }
     if ctx.space("B3") {
         let mut amounts: Vec<i128> = vec![0, 1, 2, 31, 32, 33, 63, 64, 65, 127, 128, 129, 191, 192, 193, 200, 1000];
         // each type's MAX, and negative amounts
